@@ -43,9 +43,13 @@ def parseSemver (maxC : Nat) (line : List Char) : SemV :=
   if v.comps.length ≤ maxC then v
   else ⟨v.comps.take maxC, (v.comps.drop maxC).foldl (fun b c => b ++ ['.'] ++ intToChars c) v.build⟩
 
+/-- `convertToNumericIdentifier` (repair 6209aa57): numeric only when every character is an ASCII
+digit (so `-5`, `+5` and the empty identifier are alphanumeric) -/
+def toNumId (s : List Char) : Option Int := if s.all isDigit then toBig s else none
+
 /-- one identifier pair in `compareSemverBuildComponents`: numeric < non-numeric -/
 def identCmp (a b : List Char) : Ordering :=
-  match toBig a, toBig b with
+  match toNumId a, toNumId b with
   | some x, some y => icmp x y
   | none, none => strCmp a b
   | some _, none => .lt
